@@ -180,9 +180,12 @@ class Message:
                             break
                     break
         try:
-            return return_type(hdr)
+            answer = return_type(hdr)
         except NameError:
-            return Message(hdr)
+            answer = Message(hdr)
+        # answer classes reset the flag to their own default when created
+        answer.header.is_proxyable = self.header.is_proxyable
+        return answer
 
     @classmethod
     def from_bytes(cls, msg_data: bytes, plain_msg: bool = False) -> _AnyMessageType:
